@@ -110,7 +110,7 @@ def qual_as_list(rows, f):
     return rows
 
 
-def judge_file(res, f, recs, data, lazy, case, feats, header_present=False, ops=('columns', 'tolist')):
+def judge_file(res, f, recs, data, lazy, case, feats, header_present=False, ops=('columns', 'tolist'), reread=False):
     """Run one file through the reader seam; returns True if judged OK."""
     fields = list(f.fields)
     exp = expected_rows(f, recs)
@@ -161,6 +161,31 @@ def judge_file(res, f, recs, data, lazy, case, feats, header_present=False, ops=
         if got != exp:
             res.fail('tolist-values', case, feats, expected=exp, observed=got)
             return False
+    if reread and n >= 2:
+        # Parsing must stay a function of the bytes when the same chunk is looked at twice: first through a row slice,
+        # then as a whole (lazy: the two tables share one buffer), or by parsing one buffer twice (eager).
+        try:
+            if lazy:
+                t2 = make_reader(data, f.buffer_type(), True).read()
+                first = observe.table_rows(t2[:1], fields)
+                again = observe.table_rows(t2, fields)
+            else:
+                from bionumpy.io.parser import NumpyFileReader
+                import io as _io
+                buf = NumpyFileReader(_io.BytesIO(data), f.buffer_type()).read()
+                first = observe.table_rows(buf.get_data(), fields)[:1]
+                again = observe.table_rows(buf.get_data(), fields)
+            res.transitions += 2
+        except observe.ObserverError:
+            raise
+        except Exception as e:
+            fe = dict(feats)
+            fe['exc'] = exc_name(e)
+            res.fail('second-look-at-the-same-chunk-raises', case, fe, expected=exp, observed=repr(e)[:300], tb=tb_string(e))
+            return False
+        if first != exp[:1] or again != exp:
+            res.fail('second-look-at-the-same-chunk-differs', case, feats, expected=exp, observed={'slice': first, 'whole': again})
+            return False
     res.outcome('ok:n=%d' % n)
     return True
 
@@ -172,12 +197,12 @@ def mk_case(part, fmt, texts, eol, lazy, extra=None):
     return c
 
 
-def run_texts_case(res, part, fmt, all_texts, eol, lazy, feats, comment_after=(), nontrivial=False):
+def run_texts_case(res, part, fmt, all_texts, eol, lazy, feats, comment_after=(), nontrivial=False, reread=False):
     f = FORMATS[fmt]
     recs = [f.record_from_texts(t) for t in all_texts]
     data = f.render(recs, LF if eol == 'LF' else CRLF, True, comment_after=comment_after)
     case = mk_case(part, fmt, all_texts, eol, lazy, {'comment_after': list(comment_after)})
-    ok = judge_file(res, f, recs, data, lazy, case, feats)
+    ok = judge_file(res, f, recs, data, lazy, case, feats, reread=reread)
     if nontrivial:
         res.nontrivial += 1
     if len(res.samples) < 2:
@@ -235,7 +260,8 @@ def run_sweep(desc, deadline, res):
                 for eol in ('LF', 'CRLF'):
                     feats = sweep_features(f, col, tup, eol)
                     for lazy in (False, True):
-                        run_texts_case(res, 'sweep', fmt, all_texts, eol, lazy, feats, nontrivial=nontrivial)
+                        run_texts_case(res, 'sweep', fmt, all_texts, eol, lazy, feats, nontrivial=nontrivial,
+                                       reread=(base == b['baselines'][0] and eol == 'LF'))
 
 
 def run_pair(desc, deadline, res):
@@ -386,7 +412,7 @@ def replay_case(case):
         f = FORMATS[case['fmt']]
         feats = {'format': case['fmt']}
         run_texts_case(res, part, case['fmt'], case['texts'], case['eol'], case['lazy'], feats,
-                       comment_after=tuple(case.get('comment_after', ())))
+                       comment_after=tuple(case.get('comment_after', ())), reread=True)
     elif part in ('fasta', 'fasta2'):
         w = case['width']
         recs = [fasta_record(NAMES[case['names'][i]] + str(i), seq_of(L, i), w) for i, L in enumerate(case['lengths'])]
